@@ -50,3 +50,16 @@ Theorem C05_reordering : forall isn chunks dummy R order,
   exists n' recs, feed None [] (map (fun i => nth i chunks dummy) order) = Ok (n', [], recs) /\ map r_raw recs = R.
 Proof. intros isn chunks dummy R order Ho Hl HR Hd HP Hf. exact (reordered_delivers chunks isn Ho Hl dummy R order HR Hd HP Hf). Qed.
 Print Assumptions C05_reordering.
+
+(* every capture schedule at once, safety half: the arrivals are ANY sequence drawn from the direction's segments -- any of them lost,
+   any of them captured any number of times, in any order; only the direction's first data segment is captured first (otherwise: the
+   open finding first-segment-displaced).  After the session's duplicate memory (accept: C05_session_dedupe) the reassembly releases
+   a beginning of the records sent, byte-exact and in order: no schedule makes it release anything else.  (That everything is
+   released when nothing is lost is C05_reordering / C05_segmentation_and_duplicates.) *)
+Theorem C05_any_arrivals_release_a_prefix : forall isn chunks dummy R arr,
+  in_order isn chunks -> len (data chunks) < 2147483648 -> Forall wf_rec R -> data chunks = concat R ->
+  Forall (fun i => (i < length chunks)%nat) arr -> match arr with [] => True | j :: _ => j = 0%nat end ->
+  exists n' buf recs R2, feed None [] (snd (fold_left accept (map (fun i => nth i chunks dummy) arr) ([], []))) = Ok (n', buf, recs) /\
+                         R = map r_raw recs ++ R2.
+Proof. intros isn chunks dummy R arr Ho Hl HR Hd Hb Hf. exact (any_arrivals_prefix chunks isn Ho Hl dummy R arr HR Hd Hb Hf). Qed.
+Print Assumptions C05_any_arrivals_release_a_prefix.
